@@ -369,7 +369,7 @@ def run_one(desc: dict, controller: "Recorder | None" = None) -> dict:
     for ln in rec.lines:
         full = {"e": "", "k": "", "ph": 0, "su": 0, "sc": 0, "op": 0, "st": "", "skip": "", "en": True, "bad": False, "dg": 0,
                 "thr": 0, "nfail": 0, "reqok": True, "code": 0, "site": "", "exc": "", "stop": False, "fails": 0, "limit": False,
-                "rel": True, "err": "", "case": 0, "ctxerr": "", "t": 0}
+                "rel": True, "err": "", "case": 0, "ctxerr": "", "t": 0, "role": "", "tok": ""}
         full.update(ln)
         lines.append(full)
     hdr = {"nops": nops + extra_ops, "unitops": nops, "workers": desc.get("workers", 1), "maxfail": desc.get("max_failures", 0) or 0,
